@@ -89,8 +89,15 @@ class Relation:
             and self.card_max == other.card_max
         )
 
+    def _sort_key(self) -> tuple[str, list[str], int, int]:
+        parent_name = self.parent.name if self.parent else ""
+        return (parent_name, sorted(child.name for child in self.children),
+                self.card_min, self.card_max)
+
     def __lt__(self, other: Any) -> bool:
-        return str(self) < str(other)
+        # order on the same canonical form that __eq__ and __hash__ use
+        # (the order of the children inside the relation is irrelevant)
+        return self._sort_key() < other._sort_key()
 
 
 class FeatureType(Enum):
